@@ -103,6 +103,11 @@ package coreblock
 //@ func AddDelta
 //@   assert before call#1 putBlock: res(EnabledSigningFromContext, 1, 0) ==> as(arg2, *Block) == callarg(signBlock, 1, 2)
 //@   tags C12
+//@ // only field-level blocks above the first height are left unsigned; every other block is signed when a
+//@ // signing identity is in effect
+//@ func signBlock
+//@   ensures err == nil && !called(Marshal, 1) ==> res(IsField, 1, 0) && res(GetPriority, 1, 0) > 1
+//@   tags C12
 //@ func signBlock -> (err)
 //@   requires block.Signature == nil
 //@   assert before call#1 Sign: sameslice(arg1, res(Marshal, 1, 0))
